@@ -56,8 +56,11 @@ def run_unit(unit, out, tier, seed):
             one = gen.exh_sentences(1)
             cases += [('exh', 'prop', ((p,), c)) for p in one for c in one] + [('exh', 'prop', ((), c)) for c in one]
         if tier == 'quick':
-            rng.shuffle(cases)
-            cases = cases[:140]
+            # every hostile shape, and a seeded sample of the rest
+            host = [c for c in cases if c[1] == 'hostile']
+            rest = [c for c in cases if c[1] != 'hostile']
+            rng.shuffle(rest)
+            cases = host + rest[:50]
         for i, (label, frag, arg) in enumerate(cases):
             cfg, driver, order = workload.config_cycle(i, seed)
             check(weak, strong, Sw, Ss, arg, cfg, driver, order, out, tier, rng, label)
